@@ -179,6 +179,8 @@ class World:
         "enum_profile": "sorted",
         "clock_profile": "calm",
         "wbuf": 8192,
+        "effect_cost_us": 20,
+        "root_spelling": "abs",
     }
 
     def __init__(self, spec, sandbox):
@@ -259,7 +261,7 @@ class World:
         if pid == 0:
             try:
                 os.close(rfd)
-                _child_main(self, job, cwd or self.mount, kill, hooks or {}, wfd)
+                _child_main(self, job, cwd or self.default_cwd(), kill, hooks or {}, wfd)
             finally:
                 os._exit(97)
         os.close(wfd)
@@ -925,7 +927,8 @@ def _child_main(world, job, cwd, kill, hooks, wfd):
     cs.read_profile = world.spec["read_profile"]
     cs.enum_profile = world.spec["enum_profile"]
     cs.wbuf = world.spec["wbuf"]
-    cs.clock = Clock(world.clock_us, world.clock_reads, world.spec["env_seed"], world.spec["clock_profile"])
+    cs.clock = Clock(world.clock_us, world.clock_reads, world.spec["env_seed"], world.spec["clock_profile"],
+                     world.spec.get("effect_cost_us", 20))
     cs.kill = kill
     cs.effects = []
     cs.reads = {}
@@ -1010,7 +1013,20 @@ def _child_main(world, job, cwd, kill, hooks, wfd):
 def _expand(world, token):
     if isinstance(token, str):
         if token.startswith("@R"):
-            return world.root + token[2:]
+            sp = world.spec.get("root_spelling", "abs")
+            rest = token[2:]
+            if sp == "abs":
+                return world.root + rest
+            if sp == "abs_slash":
+                return world.root + (rest if rest else "/")
+            name = world.spec["rootname"]
+            if sp == "rel":  # cwd = mount
+                return name + rest
+            if sp == "dot_rel":
+                return "./" + name + (rest if rest else "/")
+            if sp == "dot":  # cwd = root
+                return "." + rest if rest else "."
+            return world.root + rest
         if token.startswith("@M"):
             return world.mount + token[2:]
         if token.startswith("@S"):
@@ -1019,6 +1035,13 @@ def _expand(world, token):
 
 
 World.expand = _expand
+
+
+def _default_cwd(world):
+    return world.root if world.spec.get("root_spelling") == "dot" else world.mount
+
+
+World.default_cwd = _default_cwd
 
 
 def _env_path(world, p):
